@@ -828,6 +828,99 @@ def cmdAbi (args : List String) : String :=
     (DDP.Abi.signature params (abiTy ret)).toC name
   | _ => "bad-request"
 
+/-! ### ownership model of the code generator (C05) -/
+namespace OwnP
+open DDP.Own
+
+/-- prefix encoding: Ex `L | V k | C a b | F f a`, Cond `O | Q a b | A c d`,
+St `d e | a k e | x e | i c blk blk | w c blk | b | c | r e | k blk`, Blk `[ st* ]` -/
+def pEx : Nat → List String → Option (Ex × List String)
+  | 0, _ => none
+  | _ + 1, "L" :: r => some (.lit, r)
+  | _ + 1, "V" :: k :: r => k.toNat?.map fun n => (.var n, r)
+  | n + 1, "C" :: r => do
+    let (a, r) ← pEx n r
+    let (b, r) ← pEx n r
+    pure (.concat a b, r)
+  | n + 1, "F" :: f :: r => do
+    let fn ← f.toNat?
+    let (a, r) ← pEx n r
+    pure (.call fn a, r)
+  | _, _ => none
+
+def pCond : Nat → List String → Option (Cond × List String)
+  | 0, _ => none
+  | _ + 1, "O" :: r => some (.prim, r)
+  | n + 1, "Q" :: r => do
+    let (a, r) ← pEx n r
+    let (b, r) ← pEx n r
+    pure (.eq a b, r)
+  | n + 1, "A" :: r => do
+    let (c, r) ← pCond n r
+    let (d, r) ← pCond n r
+    pure (.and c d, r)
+  | _, _ => none
+
+mutual
+  def pSt : Nat → List String → Option (St × List String)
+    | 0, _ => none
+    | n + 1, "d" :: r => do let (e, r) ← pEx n r; pure (.decl e, r)
+    | n + 1, "a" :: k :: r => do let kn ← k.toNat?; let (e, r) ← pEx n r; pure (.assign kn e, r)
+    | n + 1, "x" :: r => do let (e, r) ← pEx n r; pure (.expr e, r)
+    | n + 1, "i" :: r => do
+      let (c, r) ← pCond n r
+      let (t, r) ← pBlk n r
+      let (e, r) ← pBlk n r
+      pure (.ite c t e, r)
+    | n + 1, "w" :: r => do
+      let (c, r) ← pCond n r
+      let (b, r) ← pBlk n r
+      pure (.while c b, r)
+    | _ + 1, "b" :: r => some (.brk, r)
+    | _ + 1, "c" :: r => some (.cont, r)
+    | n + 1, "r" :: r => do let (e, r) ← pEx n r; pure (.ret e, r)
+    | n + 1, "k" :: r => do let (b, r) ← pBlk n r; pure (.block b, r)
+    | _, _ => none
+  def pBlk : Nat → List String → Option (Blk × List String)
+    | 0, _ => none
+    | n + 1, "[" :: r => pStmts n r
+    | _, _ => none
+  def pStmts : Nat → List String → Option (Blk × List String)
+    | 0, _ => none
+    | _ + 1, "]" :: r => some (.nil, r)
+    | n + 1, r => do
+      let (s, r) ← pSt n r
+      let (b, r) ← pStmts n r
+      pure (.cons s b, r)
+end
+
+/-- all branch decision sequences of a length -/
+def paths : Nat → List (List Bool)
+  | 0 => [[]]
+  | n + 1 => (paths n).flatMap fun p => [true :: p, false :: p]
+
+def outClass : Out → String
+  | .err _ => "err" | .normal _ _ => "normal" | .brk _ _ => "brk" | .cont _ _ => "cont"
+  | .ret own => if own == [] then "ret-nothing" else if own == [retSlot] then "ret-value" else "ret-leak"
+  | .timeout => "timeout"
+
+end OwnP
+
+/-- `own <depth> <body…>`: well-scoped? the calls the compiled body contains; the outcomes over all paths of `depth` decisions -/
+def cmdOwn (args : List String) : String :=
+  match args with
+  | d :: body =>
+    match OwnP.pBlk 200 body with
+    | some (b, []) =>
+      let code := DDP.Own.compileFn b
+      let c := DDP.Own.callCounts code
+      let outs := (OwnP.paths d.toNat!).map fun p => OwnP.outClass (DDP.Own.run 12 code p [DDP.Own.paramSlot])
+      let cls := ["err", "normal", "brk", "cont", "ret-nothing", "ret-value", "ret-leak", "timeout"]
+      let hist := cls.map fun k => s!"{k}={(outs.filter (· == k)).length}"
+      s!"wf={b2s (DDP.Own.wfB b 1 false)} fromConst={c.fromConst} copy={c.copy} free={c.free} concat={c.concat} equal={c.equal} call={c.call} " ++ " ".intercalate hist
+    | _ => "bad-request"
+  | _ => "bad-request"
+
 def dispatch (line : String) : String :=
   match (line.splitOn " ").filter (· ≠ "") with
   | "scan" :: args => cmdScan args
@@ -861,6 +954,7 @@ def dispatch (line : String) : String :=
   | "rangecheck" :: args => cmdRangeCheck args
   | "duden" :: args => cmdDuden args
   | "abi" :: args => cmdAbi args
+  | "own" :: args => cmdOwn args
   | _ => "bad-request"
 
 
